@@ -11,6 +11,7 @@ from . import smt
 from .core import source
 
 LIB_USED = set()     # names of trusted library models actually used in this run (reported in evidence)
+CALLEE_MODELS_USED = set()   # repository functions replaced by a call-site model / contract at a call (modular use)
 
 
 def lib(name):
@@ -661,8 +662,10 @@ def call_repo(ex, q, self_val, args, kw, st):
     c = ex.reg.get(q)
     node = repo_fn_node(q)
     if c is not None and getattr(c, 'model', None):
+        CALLEE_MODELS_USED.add(q)
         return c.model(ex, self_val, args, kw, st)
     if c is not None and not getattr(c, 'inline', False):
+        CALLEE_MODELS_USED.add(q)
         return apply_contract(ex, c, q, node, self_val, args, kw, st)
     if node is None:
         raise OutsideSubset('no source for %s' % q)
